@@ -63,6 +63,7 @@ CFG = {
         "Swat4.C06.facts_udp_read_buffer",
         "Swat4.C06.facts_udp_buffer_is_model",
         "Swat4.C06.facts_partial_ops_browser",
+        "Swat4.C06.facts_browser_reads_only",
     ],
     # proved in the Lean files and used by other proofs, but NOT audited as property theorems: each is a
     # read-back of a definition, glue between two names, true by type, or a corollary of an audited theorem
@@ -130,7 +131,7 @@ CFG = {
         "transcriptions to those)",
     ],
     "manifest": {
-        "text": "Lean theorems udp_total (Heartbeat.dispatch never panics on a non-empty datagram - by construction except for payload[0]) and udp_never_panics_checked / HeartbeatChecked.dispatchChecked_eq (the honest version: HeartbeatChecked.dispatchChecked transcribes Dispatcher.Handle, dispatch, ParseInstanceID, the parseHeartbeatParams loop with binutils.ConsumeCString, and the reply construction with PutUint16 and hex.Encode expression by expression with CHECKED index/slice/assignment operations and a fuelled loop; it is .panic exactly on the empty datagram and otherwise .ok of exactly the state and outcome of Heartbeat.dispatch), tcp_total/tcp_handle_total (the browser request parser never panics), tcp_pipeline_total (the whole handler goroutine - NewRequest, query.NewFromString, listing as an arbitrary function of the parsed query, packServers with its slice expressions checked, crypt.Encrypt - ends in one reply or a close without reply for every byte string read (any length, so in particular <= 2048), every requester, every listing and every cipher draws: never panic or hang; composed from C01.parse_total, C03.filter_parse_never_panics, packServersChecked_eq, C02.encrypt_total) with tcp_pipeline_refines_handle (it replies/closes exactly when BrowserReq06.handle says so, via BrowserReqBridge.newRequest_eq: the C06 request model is the outcome class of the C01 one), rejected_no_effect (an error outcome leaves registry, instances and queue unchanged), mutation_implies_decodable (a datagram that changes the state is accepted by the independent decoder ReporterSpec.decode? as a heartbeat/removal/keepalive, or exhibits one of three documented leniencies of the real parsers - keepalive with trailing bytes, last string unterminated, unknown string without a value - each witnessed on the model and confirmed on the real dispatcher), acts_as_wellformed (every such datagram has exactly the effect and outcome of the encoding of a well-formed message); 'at most one reply' is not a theorem (the outcome types cannot express two replies): it is covered by the harness's reply count only; tied to the code by outcome + full-dump comparison on malformed streams and by real TCP connections to browser.Handler.Handle; liveness of the real udpserver is measured.",
+        "text": "Lean theorems udp_total (Heartbeat.dispatch never panics on a non-empty datagram - by construction except for payload[0]) and udp_never_panics_checked / HeartbeatChecked.dispatchChecked_eq (the honest version: HeartbeatChecked.dispatchChecked transcribes Dispatcher.Handle, dispatch, ParseInstanceID, the parseHeartbeatParams loop with binutils.ConsumeCString, and the reply construction with PutUint16 and hex.Encode expression by expression with CHECKED index/slice/assignment operations and a fuelled loop; it is .panic exactly on the empty datagram and otherwise .ok of exactly the state and outcome of Heartbeat.dispatch), tcp_total/tcp_handle_total (the browser request parser never panics), tcp_pipeline_total (the whole handler goroutine - NewRequest, query.NewFromString, listing as an arbitrary function of the parsed query, packServers with its slice expressions checked, crypt.Encrypt - ends in one reply or a close without reply for every byte string read (any length, so in particular <= 2048), every requester, every listing and every cipher draws: never panic or hang; composed from C01.parse_total, C03.filter_parse_never_panics, packServersChecked_eq, C02.encrypt_total) with tcp_pipeline_refines_handle (it replies/closes exactly when BrowserReq06.handle says so, via BrowserReqBridge.newRequest_eq: the C06 request model is the outcome class of the C01 one), rejected_no_effect (an error outcome leaves registry, instances and queue unchanged), mutation_implies_decodable (a datagram that changes the state is accepted by the independent decoder ReporterSpec.decode? as a heartbeat/removal/keepalive, or exhibits one of three documented leniencies of the real parsers - keepalive with trailing bytes, last string unterminated, unknown string without a value - each witnessed on the model and confirmed on the real dispatcher), acts_as_wellformed (every such datagram has exactly the effect and outcome of the encoding of a well-formed message); 'at most one reply' is not a theorem (the outcome types cannot express two replies): it is covered by the harness's reply count only; tied to the code by outcome + full-dump comparison on malformed streams and by real TCP connections to browser.Handler.Handle; liveness of the real udpserver is measured. facts_browser_reads_only - the browser path never writes state: go/ast inventory (harness/internal/facts/finer_readonly.go) of every struct field of browser.go and listservers.go and of every method called on a repository / use-case field: the handler holds one use case and calls only Execute, the use case holds one repository and calls only Filter; every Redis command of servers.Filter and its helpers is a read and every write site of servers.go sits in save / remove (from the C09/C10 store inventory).",
         "level_note": "Trusted: Lean kernel; axioms propext, Quot.sound, Classical.choice; the inventory of partial Go operations the model makes explicit; the differential run as evidence that the models behave like the code; generated Facts.lean. Promptness/liveness are measurements.",
         "technique": "Lean 4 proof (totality by case analysis over explicit partial operations; checked transcriptions proved equal to the total models; composition of the per-stage totality theorems of C01/C02/C03; frame by 'error => no write' per use case) + differential correspondence + socket-level measurement",
         "design_ref": "DESIGN.md §5 C06",
